@@ -25,7 +25,7 @@ var Check = &ev.Check{
 	ID:    "C07",
 	Level: "model_checking",
 	Rule: "programs: every reference graph of n<=3 definitions (named N0..N2; in multi-file layouts also with two definitions of different files sharing one bare name) over kinds {typedef, struct(one optional field, optional default), enum, const, service(optional parent, one function)}, every definition choosing its references from " +
-		"{i32, string, each definition expressible from its file (same file or an included one), list<each definition>, one undefined name; constants: int, string, each constant, each enum item}, in layouts {one file; two files f0->f1 with every assignment of definitions to files; two files including each other; diamond f0->{f1,f2}->f3}. " +
+		"{i32, string, each definition expressible from its file (same file or an included one), list<each definition>, one undefined name; constants: int, string, each constant, each enum item}, in layouts {one file; two files f0->f1 with every assignment of definitions to files; two files including each other; chain f0->f1->f2; siblings f0->{f1,f2}, f1->f2; diamond f0->{f1,f2}->f3}. " +
 		"schedules: for each program every map-iteration order at every `range`-over-map execution in package compile (all n! orders for n<=4 keys) with at most 1 (quick) / 2 (thorough) deviating range executions per compile, and every permutation of the definitions within each file. " +
 		"A state is a node of the choice tree (a prefix of order choices); a transition is one order choice; every execution is a run of the real compiler built from /repo's tree. " +
 		"Oracle: all executions of one program agree on success/failure and on the canonical dump of the module graph, and on success the dump equals ref/resolve's. distinct_nontrivial = programs with at least one reference between definitions.",
@@ -286,6 +286,18 @@ var layouts = []layout{
 	{"one", 1, [][]int{{}}, func(n int) [][]int { return [][]int{make([]int, n)} }},
 	{"inc", 2, [][]int{{1}, {}}, allAssign(2, false)},
 	{"cyc", 2, [][]int{{1}, {0}}, allAssign(2, true)},
+	{"chain3", 3, [][]int{{1}, {2}, {}}, func(n int) [][]int {
+		if n != 3 {
+			return nil
+		}
+		return [][]int{{0, 1, 2}}
+	}},
+	{"siblings", 3, [][]int{{1, 2}, {2}, {}}, func(n int) [][]int {
+		if n != 3 {
+			return nil
+		}
+		return [][]int{{1, 2, 2}, {0, 1, 2}}
+	}},
 	{"diamond", 4, [][]int{{1, 2}, {3}, {3}, {}}, func(n int) [][]int {
 		if n != 3 {
 			return nil
@@ -375,13 +387,20 @@ func isTypeKind(k string) bool {
 	return k == resolve.Typedef || k == resolve.Struct || k == resolve.Enum
 }
 
-func enumerate(w *ev.W, yield func(progCase)) {
+// Enumerate yields the C07 program family (also used by C10).
+func Enumerate(quick bool, yield func(p resolve.Prog, layout string)) {
+	enumerateQ(quick, func(pc progCase) { yield(pc.P, pc.Layout) })
+}
+
+func enumerate(w *ev.W, yield func(progCase)) { enumerateQ(w.Quick(), yield) }
+
+func enumerateQ(quick bool, yield func(progCase)) {
 	kindAlpha := []string{resolve.Typedef, resolve.Struct, resolve.Enum, resolve.Const, resolve.Service}
 	for _, lay := range layouts {
 		for n := 1; n <= 3; n++ {
 			maxN := 3
 
-			if lay.name == "diamond" {
+			if lay.name == "diamond" || lay.name == "chain3" || lay.name == "siblings" {
 				maxN = 3
 			}
 			if n > maxN {
@@ -428,7 +447,7 @@ func enumerate(w *ev.W, yield func(progCase)) {
 						// the same program with two definitions of different files sharing one bare name
 						for i := 0; i < n; i++ {
 							for j := i + 1; j < n; j++ {
-								if as[i] != as[j] && (n <= 2 || !w.Quick() || (isTypeKind(kinds[i]) && isTypeKind(kinds[j]))) {
+								if as[i] != as[j] && (n <= 2 || !quick || (isTypeKind(kinds[i]) && isTypeKind(kinds[j]))) {
 									names := make([]int, n)
 									for k := range names {
 										names[k] = k
